@@ -248,6 +248,14 @@ func runC16(seed uint64, enum bool) {
 						dialsPendingAtStop++
 					}
 				}
+				// dials towards listening peers may not have completed on the offerer's side either (the
+				// puppet's accept returning says nothing about the last handshake packet under loss): every
+				// offer accepted in the last seconds counts as possibly dialling
+				for _, t0 := range tr.pendingDial {
+					if w.now()-t0 < 11*time.Second {
+						dialsPendingAtStop++
+					}
+				}
 				w.op("stop (%d outbound dials pending)", dialsPendingAtStop)
 				w.abstract("stop")
 				w.probe("stop")
